@@ -1462,7 +1462,9 @@ class DiskRefsContainer(RefsContainer):
         ensure_dir_exists(os.path.dirname(filename))
         try:
             with GitFile(filename, "wb") as f:
-                if os.path.exists(filename) or name in self.get_packed_refs():
+                # (the name the file stands for, not the symref it was
+                # reached through)
+                if os.path.exists(filename) or realname in self.get_packed_refs():
                     f.abort()
                     return False
                 try:
